@@ -380,7 +380,7 @@ def obligations(tier):
                     # matrices is equality up to global phase
                     cx.close(doc(e1, 0.0), doc(e2, 0.0), tol=1e-6, label=f'{name}: equal_up_to_global_phase => shift-free matrices equal')
 
-        obs.append(Obligation(f'equality.{name}', body, twin=lambda cx, b=body: b(cx, wrong=True), opts={'weight': 2}, desc='g(e1) == g(e2) / approx_eq / equal_up_to_global_phase True on a path (periodic canonicalisation of symbolic exponents) implies the documented matrices agree (up to phase for the last)'))
+        obs.append(Obligation(f'equality.{name}', body, twin=lambda cx, b=body: b(cx, wrong=True), opts={'weight': 2, 'vc_timeout_ms': 120000}, desc='g(e1) == g(e2) / approx_eq / equal_up_to_global_phase True on a path (periodic canonicalisation of symbolic exponents) implies the documented matrices agree (up to phase for the last)'))
 
     # ---- 5a'. value equality of the IonQ native gates (all constructor parameters are part of the value) -----------------
     def eq_ionq_body(cx, wrong=False):
